@@ -113,6 +113,11 @@ def sweep_once(c, scale_override=None):
         scn['setup']['axial_mesh_size'] = step
     with S.Built(scn) as b:
         rx = b.reactor()
+        if c.get('rebuild'):
+            # the same input (and the same power file) built a second / third time in this process: what is
+            # deposited by the LAST model must still be what the file assigns
+            for _ in range(int(c['rebuild'])):
+                rx = b.reactor()
         rx.temperature_sweep()
         out = []
         from .. import observe as O
@@ -235,6 +240,9 @@ def cases(tier):
             for bounds in ('whole', 'aligned', 'both-mid'):
                 out.append(dict(base, zero_cell=zc, bounds=bounds))
         out.append(dict(base, upper='6node'))
+        for total in (None, 1.0e5):
+            for scaling in (None, 0.5):
+                out.append(dict(base, total=total, scaling=scaling, rebuild=2, bounds='whole'))
         out.append(dict(base, gap_model='flow', nasm=3))
         for bounds in BOUNDS:
             for comps in ('all', 'duct'):
